@@ -480,7 +480,8 @@ def schema_violations() -> List[Viol]:
         s["remote_schema_headers"] = {"A": "$C17_NOPE"}
         return "C17_NOPE"
     mk("header-env-missing", "InvalidConfiguration", hdr)
-    for bad in ("schema.txt", "schema", ".py", "out.py/schema", "schema.", "s.graphqls", "a/b.json", "x.py.bak"):
+    for bad in ("schema.txt", "schema", ".py", "out.py/schema", "schema.", "s.graphqls", "a/b.json", "x.py.bak",
+                "out/.py", ".graphql", ".GQL", "a.b/.gql", "./.py", "out/.py."):     # base name = a dot plus an extension: no file type
         def tf(s, W, bad=bad):
             s["target_file_path"] = bad
             return bad
